@@ -117,8 +117,11 @@ class Scheduler(seams.Listener):
                 while self.cur != me:
                     self.cv.wait()
 
-    def run(self, programs):
-        """programs: {name: callable()}; returns {name: result or ('EXC', repr)}"""
+    def run(self, programs, copy_context=False):
+        """programs: {name: callable()}; returns {name: result or ('EXC', repr)}
+
+        copy_context: start every thread the way asyncio.to_thread / context-propagating
+        executors do - inside a copy of the starting thread's contextvars context"""
         threads = {}
         for name in self.names:
             self.inside[name] = 0
@@ -147,8 +150,14 @@ class Scheduler(seams.Listener):
                 self.cv.notify_all()
 
         for name in self.names:
-            threads[name] = threading.Thread(target=wrap, args=(name, programs[name]),
-                                             name=name, daemon=True)
+            if copy_context:
+                import contextvars
+                threads[name] = threading.Thread(
+                    target=contextvars.copy_context().run, args=(wrap, name, programs[name]),
+                    name=name, daemon=True)
+            else:
+                threads[name] = threading.Thread(target=wrap, args=(name, programs[name]),
+                                                 name=name, daemon=True)
         seams.install()
         seams.LISTENERS.append(self)
         try:
